@@ -11,7 +11,8 @@ RULE = ("single trees: every rooted shape with 2-5 leaves (polytomies included) 
         "and re-timed (valid, order-changing), so children have several parents with different chosen timepoints and the first "
         "edge of a group is often not the one with the smallest parent index; both probability spaces, eps in "
         "{1e-8,1e-6,1e-3,0.1}; a case is non-trivial when some node has >= 2 distinct parents or the chosen index "
-        "differs from argmax(inside); distinct by content hash")
+        "differs from argmax(inside); distinct by content hash."
+        "About half of the inputs carry 1-3 extra mutations that sit on NO edge (above the root of the local tree; valid tskit input); the references count only mutations on edges, computed from the tables.")
 ASSUME = ["scipy.stats.poisson.pmf/logpmf values enter the model as a lookup table (not modelled)",
           "the edge order produced by edges_by_child_then_parent_desc is taken from the implementation and "
           "checked against the theorem's hypothesis (outside_orderb) on every input",
